@@ -145,14 +145,29 @@ def main():
         reports.append(verify_module(mp, repo, timeout_ms=timeout_ms, verbose=a.verbose))
     # contracts this property's proofs ASSUME and that are proved under another property: re-proved here, so that a change
     # breaking them is reported for this property too
-    for dep_pid, units in meta.get("depends", []):
+    for dep in meta.get("depends", []):
+        dep_pid, units = dep[0], dep[1]
         rep = verify_module(os.path.join(HERE, "contracts", f"{dep_pid}.py"), repo, timeout_ms=timeout_ms, only=set(units), verbose=a.verbose)
         rep["dependency_of"] = dep_pid
+        rep["only_tagged"] = len(dep) > 2 and dep[2] == "only_tagged"
         reports.append(rep)
     for rep in reports:
         if rep.get("dependency_of"):
             for u in rep["units"] + rep["undecided"]:
                 _unit_owner[u["unit"]] = rep["dependency_of"]
+    # clauses written for another property (ensures_for) are not part of this one's claim; in a unit re-proved as a dependency
+    # with "only_tagged", only the clauses tagged for THIS property (and the proof-internal obligations behind them) count
+    for rep in reports:
+        dep_tagged = rep.get("only_tagged")
+        keep = []
+        for r in rep["results"]:
+            fp = r["info"].get("for_property")
+            if fp is not None and fp != pid:
+                continue
+            if dep_tagged and fp is None and re.search(r"/(post#|raises#|exc:|frame:)", r["oid"]):
+                continue
+            keep.append(r)
+        rep["results"] = keep
     results = [r for rep in reports for r in rep["results"]]
     if meta.get("ignore_known_clauses"):
         # clauses recorded as findings of ANOTHER property served by the same contract module are not part of this one's claim
